@@ -95,6 +95,7 @@ class Gen:
         self.vars = ["a", "b", "c", "p", "q", "x", "y", "n", "arr", "s"]
         self.ctr = 0
         self.avoid_known = True
+        self.switch_pragmas = False      # pragma lines between a switch head and its body (listed finding of C05): only C05 asks for them
 
     def fresh(self, prefix="v"):
         self.ctr += 1
@@ -981,7 +982,7 @@ class Gen:
             c = self.emit_expr(s[1], tk, 1)
             tk.add(")")
             prs = []
-            if self.rng.random() < 0.06:
+            if self.switch_pragmas and self.rng.random() < 0.06:
                 # pragma lines between the switch head and its body: each appears once, at its place (wrapped with the body in a
                 # Compound, as in front of any sub-statement) - and the body is the regrouped body all the same
                 for _ in range(self.rng.randint(1, 2)):
